@@ -20,6 +20,7 @@ type callArgs struct {
 	builtin string
 	sig     *types.Signature
 	dynamic bool
+	globalFn *ssa.Global // dynamic call through this package-level func variable
 }
 
 func (c *FnCtx) snapshotCallArgs(fr *frame, cc *ssa.CallCommon) callArgs {
@@ -48,6 +49,11 @@ func (c *FnCtx) snapshotCallArgs(fr *frame, cc *ssa.CallCommon) callArgs {
 			ca.closure = &v
 		} else {
 			ca.dynamic = true
+			if u, ok := cc.Value.(*ssa.UnOp); ok && u.Op == token.MUL {
+				if g, ok := u.X.(*ssa.Global); ok && g.Pkg != nil {
+					ca.globalFn = g
+				}
+			}
 		}
 	}
 	for i, a := range cc.Args {
@@ -141,6 +147,13 @@ func (c *FnCtx) doCall(fr *frame, st *State, ca callArgs, pos token.Pos, rt type
 	case ca.closure != nil:
 		callee = ca.closure.Fn
 		key = callee.String()
+	case ca.globalFn != nil:
+		// call through a package-level variable of function type: a contract
+		// filed under the variable's name is an assumption about its value
+		key = ca.globalFn.Pkg.Pkg.Path() + "." + ca.globalFn.Name()
+		if con := c.eng.contractFor(key); con != nil {
+			c.eng.noteAssumed(con)
+		}
 	}
 	if key != "" {
 		if m, ok := intrinsics[key]; ok {
